@@ -572,6 +572,98 @@ def p4_shard(item, deadline):
     return acc
 
 
+
+# ----------------------------------------------------------------------------- part 5: installs before the manager exists
+
+def p5_case(ops, late):
+    """ops: operations on tasks 0..3 while no task manager exists yet (module-level declarations, constructors that
+    install their timers before the application creates the manager): ("at", k, t) install / re-install task k for time
+    t, ("suspend", k).  Then the manager comes into being (its own initialisation takes the waiting tasks over), `late`
+    more tasks are installed for time 5, and everything fires.  Order: by time, equal times in the order of (the last)
+    installation, early installs before later ones.  Returns (mismatch or None, log)."""
+    vclock.reset(0.0)
+    mgr = vclock.tm()
+    log = []
+    tasks = {}
+    rank = {}
+    n = 0
+    task._task_manager = None
+    try:
+        for op in ops:
+            k = op[1]
+            t = tasks.get(k)
+            if t is None:
+                t = tasks[k] = LogTask("e%d" % k, log)
+            if op[0] == "at":
+                t.install_task(when=float(op[2]))
+                n += 1
+                rank[k] = (float(op[2]), n)
+            elif k in rank:
+                t.suspend_task()
+                del rank[k]
+    finally:
+        # the application creates the manager: TaskManager() runs the real initialisation, which takes the waiting tasks over
+        # (the singleton trap is told that no instance exists, as in a fresh process)
+        task.TaskManager._singleton_instance = None
+        mgr = task.TaskManager()
+        core.taskManager = mgr
+        if mgr.trigger is not None:
+            try:
+                mgr.trigger.close() if hasattr(mgr.trigger, "close") else None
+            except Exception:
+                pass
+            mgr.trigger = None
+    expect = [("e%d" % k, tm_) for k, (tm_, _) in sorted(rank.items(), key=lambda kv: kv[1])]
+    for j in range(late):
+        LogTask("l%d" % j, log).install_task(when=5.0)
+    lates = [("l%d" % j, 5.0) for j in range(late)]
+    expect = sorted(expect + lates, key=lambda e: (e[1], 0 if e[0].startswith("e") else 1))
+    # stable: early ones keep their rank order, late ones their order
+    early_sorted = [e for e in expect if e[0].startswith("e")]
+    early_sorted.sort(key=lambda e: (e[1], rank[int(e[0][1:])][1]))
+    merged = sorted(early_sorted + lates, key=lambda e: e[1])      # Python's sort is stable: early before late at equal times
+    try:
+        vclock.run_until(20.0)
+    except vclock.Livelock as err:
+        return ("livelock", str(err)), log
+    if log != merged:
+        return ("early-installs:fired-sequence-differs", merged, list(log)), log
+    return None, log
+
+
+def p5_cases(tier):
+    times = (5, 7)
+    ops1 = [("at", k, t) for k in range(3) for t in times] + [("suspend", k) for k in range(3)]
+    maxlen = 4 if tier == "quick" else 5
+    for nops in range(1, maxlen + 1):
+        for ops in itertools.product(ops1, repeat=nops):
+            # only histories in which tasks appear in index order (symmetry) and suspend hits an installed task
+            seen = []
+            ok = True
+            for op in ops:
+                if op[1] not in seen:
+                    if op[1] != len(seen) or op[0] == "suspend":
+                        ok = False
+                        break
+                    seen.append(op[1])
+            if ok:
+                for late in (0, 2):
+                    yield (ops, late)
+
+
+def p5_shard(item, deadline):
+    acc = Acc()
+    for (ops, late) in item:
+        bad, log = p5_case(ops, late)
+        acc.case(("p5", ops, late))
+        acc.traces += 1
+        acc.transitions += len(ops) + late + len(log)
+        acc.outcome("p5:%s" % ("ok" if bad is None else bad[0]))
+        if bad is not None:
+            acc.fail("sched:%s" % bad[0], {"mismatch": bad, "early_operations": [list(o) for o in ops], "late_installs_at_5": late},
+                     {"part": 5, "ops": [list(o) for o in ops], "late": late})
+    return acc
+
 # ----------------------------------------------------------------------------- entry points
 
 def run(tier, seed, deadline):
@@ -584,8 +676,14 @@ def run(tier, seed, deadline):
     a = p1_run(3, {}, probe)
     b = p1_run(3, {}, probe)
     if a != b:
-        raise HarnessError("C14 part1 replay of one history diverged: %r vs %r" % (a, b))
+        # the clock and every operation are the harness's own: a difference means that something of the first run
+        # survived in the task manager and changed the second - reported, not a harness fault
+        acc.fail("sched:history-dependent:same-operations-give-another-result-the-second-time",
+                 {"history": [list(x) for x in probe], "first": repr(a)[:300], "second": repr(b)[:300]}, {"part": "twice"})
 
+    cases5 = list(p5_cases(tier))
+    run_shards(p5_shard, chunks(cases5, 256), deadline, into=acc)
+    acc.info["part5 cases (installs before the manager exists)"] = len(cases5)
     # part 2 and 3 first (cheap, bounded), then part 1 with the remaining budget
     cases2 = list(p2_grid(tier))
     run_shards(p2_shard, chunks(cases2, 32), deadline, into=acc)
@@ -626,6 +724,16 @@ def replay(case):
     if part == 4:
         bad, got = p4_case(tuple(case["order"]), tuple(case["removes"]), tuple(case["moves"]))
         return bad is None, "install due times %r, suspend %r, move %r -> %r fired %r" % (case["order"], case["removes"], case["moves"], bad, got)
+    if part == 5:
+        vclock.install()
+        bad, log = p5_case(tuple(tuple(o) for o in case["ops"]), case["late"])
+        return bad is None, "before the manager exists: %r, then %d installs at 5 -> fired %r %s" % (case["ops"], case["late"], log, bad or "")
+    if part == "twice":
+        vclock.install()
+        probe = (("at", 0, 1), ("at", 1, 1), ("after", 2, 1), ("suspend", 1), ("next",), ("resume", 1), ("adv1",))
+        a = p1_run(3, {}, probe)
+        b = p1_run(3, {}, probe)
+        return a == b and a[0] is None, "the same history twice: %r / %r" % (a, b)
     if part == 3:
         n, raising, parent, n_tasks, traise, loop_kind = case["case"][:6]
         kind = case["case"][6] if len(case["case"]) > 6 else "function"
